@@ -30,6 +30,30 @@ func patOf(s string) []int {
 }
 
 func (e *scriptEnv) execFind(op string, h handle, a []string) (string, bool) {
+	if op == "mkf" || op == "mkfr" { // a search closure that stays alive across later statements
+		pat := patOf(a[2])
+		var f func() int
+		switch {
+		case h.v == 1 && op == "mkf":
+			f = sq1.Find(h.s1, pat)
+		case h.v == 1:
+			f = sq1.FindR(h.s1, pat)
+		case h.v == 2 && op == "mkf":
+			f = sq2.Find(h.s2, pat)
+		case h.v == 2:
+			f = sq2.FindR(h.s2, pat)
+		case op == "mkf":
+			f = sq3.Find(h.s3, pat)
+		default:
+			fs, ok := h.s3.(sq3.FiniteSequence)
+			if !ok {
+				return "na", true
+			}
+			f = sq3.FindR(fs, pat)
+		}
+		e.finds = append(e.finds, f)
+		return "ok", true
+	}
 	mutating := false
 	switch op {
 	case "findm", "findrm", "mm", "bmm": // C14: the caller overwrites the pattern while the iterator is live
